@@ -23,7 +23,7 @@ pub(crate) fn entity_created_on_client(
         );
         cmd.entity(id)
             .remove::<SyncMark>()
-            .insert(SyncEntity { uuid });
+            .try_insert(SyncEntity { uuid });
         debug!("New entity tracked on client {}", uuid);
     }
 }
